@@ -78,6 +78,8 @@ pub fn run(args: &[&str]) -> String {
       // universe for printing: every index named in the tables
       let mut uni: Vec<u32> = vec![];
       let mut own: Option<Vec<u32>> = None;
+      // the request is the legacy double-encoded form of this set: the property says it still decodes
+      let mut legacy: Option<Vec<u32>> = None;
       for t in &args[3..] {
         let p: Vec<&str> = t.split('=').collect();
         if p.len() == 3 {
@@ -86,7 +88,10 @@ pub fn run(args: &[&str]) -> String {
               uni.extend(v.iter());
             }
             if p[0] == "OWN" {
-              own = Some(v);
+              own = Some(v.clone());
+            }
+            if p[0] == "LEG" {
+              legacy = Some(v);
             }
           }
         }
@@ -94,29 +99,37 @@ pub fn run(args: &[&str]) -> String {
       let Some(svc) = service(&types, url.as_deref()) else { return "bad-request".into() };
       match std::panic::catch_unwind(|| RevocationBitmap::try_from(&svc)) {
         Err(_) => "panic\t#FAIL:panic:RevocationBitmap::try_from panicked".into(),
-        Ok(Err(_)) => with("err".into(), own.map(|_| "own-endpoint-does-not-decode:the library's own encoding of this bitmap is rejected".to_string())),
+        Ok(Err(_)) => with(
+          "err".into(),
+          own.map(|_| "own-endpoint-does-not-decode:the library's own encoding of this bitmap is rejected".to_string()).or(legacy.map(|_| "legacy-endpoint-does-not-decode:an endpoint in the legacy double-encoded form is rejected".to_string())),
+        ),
         Ok(Ok(b)) => {
           let s = show_set(&b, &uni);
-          let f = own.and_then(|o| {
-            let want = bitmap_of(&o);
-            if want != b {
-              Some("own-endpoint-decodes-differently:".to_string())
-            } else {
-              None
-            }
-          });
+          let f = own
+            .and_then(|o| {
+              let want = bitmap_of(&o);
+              if want != b {
+                Some("own-endpoint-decodes-differently:".to_string())
+              } else {
+                None
+              }
+            })
+            .or(legacy.and_then(|o| if bitmap_of(&o) != b { Some("legacy-endpoint-decodes-differently:".to_string()) } else { None }));
           with(format!("ok:{}", s), f)
         }
       }
     }
-    Some("hist") if args.len() >= 2 => {
+    // `hist`: through CoreDocument (RevocationDocumentExt); `ihist`: the same history through IotaDocument's own methods
+    Some(h @ ("hist" | "ihist")) if args.len() >= 2 => {
       let Some(start) = nats(args[1]) else { return "bad-request".into() };
-      let mut doc = CoreDocument::builder(Object::new()).id(did()).build().unwrap();
-      let sid = did().to_url().join("#rev").unwrap();
-      doc.insert_service(bitmap_of(&start).to_service(sid.clone()).unwrap()).unwrap();
+      let iota = h == "ihist";
+      let the_did: CoreDID = if iota { CoreDID::parse(format!("did:iota:0x{}", "ab".repeat(32))).unwrap() } else { did() };
+      let mut doc = Hist::new(iota, &the_did);
+      let sid = the_did.to_url().join("#rev").unwrap();
+      doc.insert_service(bitmap_of(&start).to_service(sid.clone()).unwrap());
       // a second, untouched bitmap service and a plain service (frame)
-      let other = did().to_url().join("#other").unwrap();
-      doc.insert_service(bitmap_of(&[1, 2, 3]).to_service(other.clone()).unwrap()).unwrap();
+      let other = the_did.to_url().join("#other").unwrap();
+      doc.insert_service(bitmap_of(&[1, 2, 3]).to_service(other.clone()).unwrap());
       let mut shadow: std::collections::BTreeSet<u32> = start.iter().copied().collect();
       let mut touched: Vec<u32> = start.clone();
       let mut out = vec![];
@@ -127,7 +140,7 @@ pub fn run(args: &[&str]) -> String {
           "rv" | "un" => {
             let Some(is) = p.get(1).and_then(|x| nats(x)) else { return "bad-request".into() };
             touched.extend(is.iter());
-            let r = if p[0] == "rv" { doc.revoke_credentials(&sid, &is) } else { doc.unrevoke_credentials(&sid, &is) };
+            let r = if p[0] == "rv" { doc.revoke(&sid, &is) } else { doc.unrevoke(&sid, &is) };
             match r {
               Ok(()) => {
                 for i in &is {
@@ -137,7 +150,7 @@ pub fn run(args: &[&str]) -> String {
                     shadow.remove(i);
                   }
                 }
-                match doc.resolve_revocation_bitmap((&sid).into()) {
+                match doc.bitmap(&sid) {
                   Ok(b) => {
                     out.push(format!("ok:{}", show_set(&b, &touched)));
                     // exactly the requested indices changed: compare with the shadow set on touched + probes
@@ -156,7 +169,7 @@ pub fn run(args: &[&str]) -> String {
                     fail = fail.or(Some(format!("own-endpoint-does-not-decode:after {}", op)));
                   }
                 }
-                match doc.resolve_revocation_bitmap((&other).into()) {
+                match doc.bitmap(&other) {
                   Ok(b) if b == bitmap_of(&[1, 2, 3]) => {}
                   _ => fail = fail.or(Some("other-service-changed:".into())),
                 }
@@ -169,7 +182,7 @@ pub fn run(args: &[&str]) -> String {
           }
           "q" => {
             let Some(i) = p.get(1).and_then(|x| x.parse::<u32>().ok()) else { return "bad-request".into() };
-            match doc.resolve_revocation_bitmap((&sid).into()) {
+            match doc.bitmap(&sid) {
               Ok(b) => out.push(if b.is_revoked(i) { "1" } else { "0" }.to_string()),
               Err(_) => out.push("err".into()),
             }
@@ -252,7 +265,79 @@ pub fn run(args: &[&str]) -> String {
       };
       with(obs.into(), f)
     }
+    // several trusted issuers whose DIDs differ only in letter case: the status must be looked up in the document whose id
+    // EQUALS the credential's issuer.  `statusm <order> <index> <set of issuer AbCd> <set of issuer abcd>`
+    Some("statusm") if args.len() == 5 => {
+      let (Some(i), Some(a), Some(b)) = (args[2].parse::<u32>().ok(), nats(args[3]), nats(args[4])) else { return "bad-request".into() };
+      let mk = |d: &str, set: &[u32]| {
+        let did = CoreDID::parse(d).unwrap();
+        let mut doc = CoreDocument::builder(Object::new()).id(did.clone()).build().unwrap();
+        doc.insert_service(bitmap_of(set).to_service(did.to_url().join("#rev").unwrap()).unwrap()).unwrap();
+        doc
+      };
+      let (da, db) = (mk("did:example:AbCd", &a), mk("did:example:abcd", &b));
+      let mut cred: Credential = CredentialBuilder::default()
+        .issuer(Issuer::Url(Url::parse("did:example:AbCd").unwrap()))
+        .subject(Subject::with_id(Url::parse("did:example:subject").unwrap()))
+        .build()
+        .unwrap();
+      let mut props = Object::new();
+      props.insert("revocationBitmapIndex".into(), Value::String(i.to_string()));
+      cred.credential_status = Some(Status::new_with_properties(Url::parse(&format!("did:example:AbCd?index={}#rev", i)).unwrap(), "RevocationBitmap2022".to_string(), props));
+      let docs = if args[1] == "0" { vec![da, db] } else { vec![db, da] };
+      let r = JwtCredentialValidatorUtils::check_status(&cred, &docs, StatusCheck::Strict);
+      let name: &'static str = match &r {
+        Ok(()) => "ok",
+        Err(e) => e.into(),
+      };
+      let obs = match name {
+        "ok" => "ok",
+        "Revoked" => "revoked",
+        _ => "error",
+      };
+      let want = if a.contains(&i) { "revoked" } else { "ok" };
+      with(obs.into(), if obs != want { Some(format!("status-report-wrong:issuer AbCd has index {} {} but the report is {} ({})", i, if a.contains(&i) { "set" } else { "clear" }, obs, name)) } else { None })
+    }
     _ => "bad-request".into(),
+  }
+}
+
+/// the document a history runs against
+enum Hist {
+  Core(CoreDocument),
+  Iota(identity_iota_core::IotaDocument),
+}
+impl Hist {
+  fn new(iota: bool, d: &CoreDID) -> Self {
+    if iota {
+      Hist::Iota(identity_iota_core::IotaDocument::new_with_id(identity_iota_core::IotaDID::try_from(d.clone()).unwrap()))
+    } else {
+      Hist::Core(CoreDocument::builder(Object::new()).id(d.clone()).build().unwrap())
+    }
+  }
+  fn insert_service(&mut self, s: Service) {
+    match self {
+      Hist::Core(d) => d.insert_service(s).unwrap(),
+      Hist::Iota(d) => d.insert_service(s).unwrap(),
+    }
+  }
+  fn revoke(&mut self, sid: &DIDUrl, is: &[u32]) -> Result<(), ()> {
+    match self {
+      Hist::Core(d) => d.revoke_credentials(sid, is).map_err(|_| ()),
+      Hist::Iota(d) => d.revoke_credentials(sid, is).map_err(|_| ()),
+    }
+  }
+  fn unrevoke(&mut self, sid: &DIDUrl, is: &[u32]) -> Result<(), ()> {
+    match self {
+      Hist::Core(d) => d.unrevoke_credentials(sid, is).map_err(|_| ()),
+      Hist::Iota(d) => d.unrevoke_credentials(sid, is).map_err(|_| ()),
+    }
+  }
+  fn bitmap(&self, sid: &DIDUrl) -> Result<RevocationBitmap, ()> {
+    match self {
+      Hist::Core(d) => d.resolve_revocation_bitmap(sid.into()).map_err(|_| ()),
+      Hist::Iota(d) => d.core_document().resolve_revocation_bitmap(sid.into()).map_err(|_| ()),
+    }
   }
 }
 
@@ -308,7 +393,7 @@ pub fn gen(thorough: bool, seed: u64, out: &mut impl Write) {
       // (c) legacy double encoding: Base64(ascii(Base64Url(compressed)))
       let inner = BaseEncoding::encode(&z, Base::Base64Url);
       let legacy = BaseEncoding::encode(inner.as_bytes(), Base::Base64);
-      writeln!(out, "C06 decode {} {} Z={}={}", ty, hex(format!("{}{}", PATTERN, legacy).as_bytes()), hex(&z), set).unwrap();
+      writeln!(out, "C06 decode {} {} Z={}={} LEG=x={}", ty, hex(format!("{}{}", PATTERN, legacy).as_bytes()), hex(&z), set, set).unwrap();
       // malformed variants that cannot decode
       for bad in [format!("{}{}", PATTERN, &data[..data.len() / 2 + 1]), format!("{}!{}", PATTERN, data), format!("data:text/plain;base64,{}", data), format!("{}{}=", PATTERN, data), format!("{}", data)] {
         if Url::parse(&bad).is_ok() {
@@ -322,6 +407,14 @@ pub fn gen(thorough: bool, seed: u64, out: &mut impl Write) {
     } else {
       // large sets: implementation-side round trip only (the line would be too long for the table)
       writeln!(out, "C06 hist {} q:{}", set_short(&is), is[0]).unwrap();
+    }
+  }
+  // issuers differing only in letter case, both orders of the trusted list
+  for order in [0, 1] {
+    for i in [0u32, 1, 5, 7] {
+      for (a, b) in [("5", "7"), ("7", "5"), ("-", "0,1,5,7"), ("0,1,5,7", "-"), ("1,5", "1,5")] {
+        writeln!(out, "C06 statusm {} {} {} {}", order, i, a, b).unwrap();
+      }
     }
   }
   // (b) histories through the document
@@ -340,6 +433,10 @@ pub fn gen(thorough: bool, seed: u64, out: &mut impl Write) {
       ops.push(format!("q:{}", r.below(span)));
     }
     writeln!(out, "C06 hist {} {}", csv(&start), ops.join(" ")).unwrap();
+    // every second history also through IotaDocument's own revoke / unrevoke methods
+    if k % 2 == 0 {
+      writeln!(out, "C06 ihist {} {}", csv(&start), ops.join(" ")).unwrap();
+    }
   }
   // (d) check_status decision table
   for sc in ["strict", "skipu", "skipall"] {
